@@ -419,6 +419,36 @@ class PlSqlDialect(AnsiSqlDialect):
 
     def __init__(self):
         keywords_as_list = [
+            # Reserved words of Oracle SQL that are no reserved words of PL/SQL.
+            "access",
+            "audit",
+            "column",
+            "file",
+            "increment",
+            "initial",
+            "integer",
+            "maxextents",
+            "mlslabel",
+            "noaudit",
+            "number",
+            "offline",
+            "online",
+            "pctfree",
+            "rowid",
+            "rownum",
+            "rows",
+            "session",
+            "smallint",
+            "successful",
+            "sysdate",
+            "trigger",
+            "uid",
+            "user",
+            "validate",
+            "varchar",
+            "varchar2",
+            "whenever",
+            # Reserved words of PL/SQL.
             "a",
             "add",
             "agent",
